@@ -31,6 +31,63 @@ def strip_fn_types(t):
     return re.sub(r"fn\([^()]*(\([^()]*\)[^()]*)*\)->[^,>]*", "", t)
 
 
+def tracing_rule(F, R, rid, markers, hb):
+    """type-directed tracing completeness for the given marker types (shared with C06.R for the slot recycler)"""
+    # ---------------- a
+    n_methods = 0
+    for marker in markers:
+        ms = [f for f in F.fns.values()
+              if re.search(r"\{impl \w+(<[^}]*>)? for %s\}::visit_\w+$" % marker, f.name)]
+        R.floor(rid, "visit methods of %s" % marker, len(ms), 15)
+        for fn in sorted(ms, key=lambda f: f.name):
+            n_methods += 1
+            kind = fn.name.rsplit("::", 1)[1]
+            rd = hm.fields_read(F, fn, depth=2)
+            for t in fn.d["in"][1:]:
+                for a in hm.adts_in_type(F, strip_fn_types(t)):
+                    if a["short"] in WRAPPERS:
+                        continue
+                    for v, f, ty, ms_ in hm.hb_fields(F, a, hb):
+                        key = "%s::%s / %s.%s" % (marker, kind, a["short"], f)
+                        if (a["short"], f) in FIELD_ALLOW:
+                            R.inst(rid, key, True, sample={"allowlisted": FIELD_ALLOW[(a["short"], f)]},
+                                   nontrivial=False)
+                            continue
+                        ok = (a["short"], f) in rd
+                        if ok and a["kind"] == "struct":
+                            # ... and on every path: the reads form a cut between entry and every return
+                            rb = hm.reader_blocks(F, fn, a["short"], f)
+                            cut, w = fn.every_path_passes_from([0], fn.returns(), rb)
+                            R.inst(rid, key + " / on every path", cut,
+                                   "%s::%s can return without reading %s.%s (an exit path bypasses the traversal of that "
+                                   "field): values reachable only through it are not marked on that path" % (
+                                       marker, kind, a["short"], f), fn.loc(), sample=True)
+                        R.inst(rid, key, ok,
+                               "%s::%s does not read %s.%s : %s, which can own a heap handle (%s): values reachable only "
+                               "through it are not marked and their storage is reclaimed" % (
+                                   marker, kind, a["short"], f, ty, ", ".join(lib.short_name(m) for m in ms_)),
+                               fn.loc(), sample={"field_type": ty})
+    # continuation internals: closed continuation frames
+    for marker in markers:
+        fn = F.one(r"\{impl \w+(<[^}]*>)? for %s\}::visit_continuation$" % marker)
+        rd = hm.fields_read(F, fn, depth=2)
+        for adt, fields in (("ClosedContinuation", None), ("StackFrame", None), ("StackFrameAttachments", None)):
+            a = F.adt(adt)
+            for v, f, ty, ms_ in hm.hb_fields(F, a, hb):
+                key = "%s::visit_continuation / %s.%s" % (marker, adt, f)
+                if (adt, f) in FIELD_ALLOW:
+                    continue
+                ok = (adt, f) in rd
+                allow = None
+                if marker == "GlobalSlotRecycler" and (adt, f) == ("StackFrameAttachments", "handler"):
+                    allow = None
+                R.inst(rid, key, ok,
+                       "%s::visit_continuation does not read %s.%s : %s of a closed continuation: values held only by a "
+                       "captured continuation's %s are not marked" % (marker, adt, f, ty, f), fn.loc(),
+                       sample={"field_type": ty})
+
+
+
 def run(F, R, ctx):
     R.rule("C04.a", "for each marker (MarkAndSweepContext, GlobalSlotRecycler, MarkAndSweepContextRefQueue) and each "
                     "visit_<kind> method: every field of the payload type that can own a heap handle (HANDLE(T), computed "
@@ -48,50 +105,7 @@ def run(F, R, ctx):
     hb = hm.handle_bearing(F)
     R.note("HANDLE(T) holds for %d types." % len(hb))
 
-    # ---------------- a
-    n_methods = 0
-    for marker in MARKERS:
-        ms = [f for f in F.fns.values()
-              if re.search(r"\{impl \w+(<[^}]*>)? for %s\}::visit_\w+$" % marker, f.name)]
-        R.floor("C04.a", "visit methods of %s" % marker, len(ms), 15)
-        for fn in sorted(ms, key=lambda f: f.name):
-            n_methods += 1
-            kind = fn.name.rsplit("::", 1)[1]
-            rd = hm.fields_read(F, fn, depth=2)
-            for t in fn.d["in"][1:]:
-                for a in hm.adts_in_type(F, strip_fn_types(t)):
-                    if a["short"] in WRAPPERS:
-                        continue
-                    for v, f, ty, ms_ in hm.hb_fields(F, a, hb):
-                        key = "%s::%s / %s.%s" % (marker, kind, a["short"], f)
-                        if (a["short"], f) in FIELD_ALLOW:
-                            R.inst("C04.a", key, True, sample={"allowlisted": FIELD_ALLOW[(a["short"], f)]},
-                                   nontrivial=False)
-                            continue
-                        ok = (a["short"], f) in rd
-                        R.inst("C04.a", key, ok,
-                               "%s::%s does not read %s.%s : %s, which can own a heap handle (%s): values reachable only "
-                               "through it are not marked and their storage is reclaimed" % (
-                                   marker, kind, a["short"], f, ty, ", ".join(lib.short_name(m) for m in ms_)),
-                               fn.loc(), sample={"field_type": ty})
-    # continuation internals: closed continuation frames
-    for marker in MARKERS:
-        fn = F.one(r"\{impl \w+(<[^}]*>)? for %s\}::visit_continuation$" % marker)
-        rd = hm.fields_read(F, fn, depth=2)
-        for adt, fields in (("ClosedContinuation", None), ("StackFrame", None), ("StackFrameAttachments", None)):
-            a = F.adt(adt)
-            for v, f, ty, ms_ in hm.hb_fields(F, a, hb):
-                key = "%s::visit_continuation / %s.%s" % (marker, adt, f)
-                if (adt, f) in FIELD_ALLOW:
-                    continue
-                ok = (adt, f) in rd
-                allow = None
-                if marker == "GlobalSlotRecycler" and (adt, f) == ("StackFrameAttachments", "handler"):
-                    allow = None
-                R.inst("C04.a", key, ok,
-                       "%s::visit_continuation does not read %s.%s : %s of a closed continuation: values held only by a "
-                       "captured continuation's %s are not marked" % (marker, adt, f, ty, f), fn.loc(),
-                       sample={"field_type": ty})
+    tracing_rule(F, R, "C04.a", MARKERS, hb)
 
     # ---------------- b
     sv = F.adt("SteelVal")
